@@ -2,6 +2,7 @@ import Dbus.Proofs.Bus.Limits
 import Dbus.Proofs.Bus.Names
 import Dbus.Props.C03
 import Dbus.Proofs.Bus.GenericA
+import Dbus.Props.C07
 /-
   C13 — configured resource limits are never exceeded.
 -/
@@ -143,6 +144,77 @@ theorem below_replies_limit_records (mx : Nat) (pend : List Pending) (caller cal
   unfold expectReply callsOf at *
   have : ¬ ((pend.filter (·.caller == caller)).length ≥ mx) := by omega
   simp [hnr, hn', this]
+
+/-! ### capacity freed by a release, a reply or a departure becomes usable again -/
+
+/-- a successful RemoveMatch leaves exactly one rule fewer: at the rules limit, the next AddMatch has room -/
+theorem removed_rule_frees_room (rs rs' : List MatchRule) (r : MatchRule) (h : removeRule rs r = some rs') :
+    rs'.length + 1 = rs.length := by
+  obtain ⟨pre, x, post, hs, _, _, hr⟩ := Dbus.Props.C07.remove_removes_one rs rs' r h
+  subst hs hr
+  simp; omega
+
+/-- below the rules limit AddMatch is never refused on account of the limit (only an over-long text is) -/
+theorem below_rules_limit_not_refused (t : Tx) (c : ConnId) (m : Msg) (h : nRules t.bus c < t.bus.limits.maxRules)
+    (he : (runMethod t c m .addMatch).2 = some .limitsExceeded) :
+    (match parseRule (arg0 m) with | .tooLong => true | _ => false) = true := by
+  have hn : ¬ (nRules t.bus c ≥ t.bus.limits.maxRules) := by omega
+  simp only [runMethod, hn, if_false] at he
+  cases hp : parseRule (arg0 m) with
+  | tooLong => rfl
+  | invalid => rw [hp] at he; simp at he
+  | ok r =>
+    rw [hp] at he
+    simp only at he
+    split at he <;> simp at he
+
+/-- a call that has been answered (its slot erased) no longer counts against its caller -/
+theorem answered_call_frees_slot : ∀ (pend : List Pending) (p : Pending), p ∈ pend →
+    callsOf (pend.erase p) p.caller + 1 = callsOf pend p.caller
+  | [], p, h => by simp at h
+  | q :: pend, p, h => by
+    unfold callsOf
+    by_cases hq : q = p
+    · subst hq
+      simp [List.filter_cons]
+    · have hm : p ∈ pend := by
+        rcases List.mem_cons.1 h with h | h
+        · exact absurd h.symm hq
+        · exact h
+      have ih := answered_call_frees_slot pend p hm
+      unfold callsOf at ih
+      have hne : ¬ (q == p) = true := by simpa using hq
+      rw [List.erase_cons_tail hne]
+      by_cases hc : (q.caller == p.caller) = true
+      · simp only [List.filter_cons, hc, if_true, List.length_cons]; omega
+      · simp only [List.filter_cons, hc, Bool.false_eq_true, if_false]; exact ih
+
+/-- a registered connection that leaves makes room for another: one registered connection fewer -/
+theorem departure_frees_connection (b : Bus) (c : ConnId) (x : Conn) (hids : (b.conns.map (·.id)).Nodup)
+    (hx : x ∈ b.conns) (hid : x.id = c) (hreg : x.name.isSome = true) :
+    nCompleted (removeConn c b) + 1 = nCompleted b := by
+  unfold nCompleted removeConn
+  show ((b.conns.filter (·.id != c)).filter (·.name.isSome)).length + 1 = (b.conns.filter (·.name.isSome)).length
+  generalize b.conns = cs at hids hx
+  induction cs with
+  | nil => simp at hx
+  | cons y ys ih =>
+    simp only [List.map_cons, List.nodup_cons] at hids
+    rcases List.mem_cons.1 hx with rfl | hx'
+    · -- x is the head: nobody else has its id
+      have hrest : ys.filter (·.id != c) = ys := by
+        apply List.filter_eq_self.2
+        intro z hz
+        have : z.id ≠ x.id := fun e => hids.1 (e ▸ List.mem_map_of_mem hz)
+        simpa [hid] using this
+      simp [List.filter_cons, hid, hreg, hrest]
+    · have hyc : y.id ≠ c := by
+        intro e
+        exact hids.1 (by rw [e, ← hid]; exact List.mem_map_of_mem hx')
+      have := ih hids.2 hx'
+      by_cases hy : y.name.isSome = true
+      · simp [List.filter_cons, hyc, hy] at this ⊢; omega
+      · simp [List.filter_cons, hyc, hy] at this ⊢; exact this
 
 /-! ### an over-long message costs only its sender the connection -/
 
